@@ -870,4 +870,546 @@ Section DictProofs.
     rewrite (nth_smul_cons C c0 c1 cadd cmul csub copp Crt). cbn [PolySpec.smul].
     destruct (N.to_nat j); cbn [shiftc]; [|rewrite (nth_nil C c0)]; ring.
   Qed.
+
+  (* ---------------------------------------------------------------- pow *)
+  Local Notation spow_nat := (spow_nat C c0 c1 cadd cmul).
+  Hypothesis c1_nz : c1 <> c0.
+
+  Lemma one_dict_from_vec : one_dict C c1 = from_vec [c1].
+  Proof.
+    unfold one_dict, PolyModel.from_vec. cbn [PolyModel.from_vec_aux].
+    replace (cnz c1) with true by (symmetry; apply cnz_true; exact c1_nz). reflexivity.
+  Qed.
+
+  Lemma spow_nat_1 : forall p, peq (spow_nat p 1) p.
+  Proof.
+    intros p k. cbn [PolySpec.spow_nat]. rewrite (smul_comm C c0 c1 cadd cmul csub copp Crt).
+    apply (nth_smul_one_l C c0 c1 cadd cmul csub copp Crt).
+  Qed.
+
+  (* a multiplier that, when it answers, answers with the product *)
+  Definition mul_sound (m : dict -> dict -> res dict) : Prop :=
+    forall p q r, m (from_vec p) (from_vec q) = Ok r -> r = from_vec (smul p q).
+
+  Lemma pow_loop_correct : forall m, mul_sound m ->
+    forall fuel p (t r : nat) pc out, (1 <= pc) ->
+    pow_loop C m fuel (from_vec (spow_nat p t)) (from_vec (spow_nat p r)) pc = Ok out ->
+    exists t' r', fst out = from_vec (spow_nat p t') /\ snd out = from_vec (spow_nat p r')
+                  /\ (t' + r' = t * N.to_nat pc + r)%nat.
+  Proof.
+    intros m Hm. induction fuel as [|f IH]; intros p t r pc out Hpc H; cbn [pow_loop] in H.
+    - destruct (pc =? 1) eqn:E1; [|discriminate H].
+      inversion H; subst. exists t, r. cbn [fst snd]. repeat split. lia.
+    - destruct (pc =? 1) eqn:E1.
+      { inversion H; subst. exists t, r. cbn [fst snd]. repeat split. lia. }
+      assert (Hsq : forall t2, m (from_vec (spow_nat p t)) (from_vec (spow_nat p t)) = Ok t2 ->
+                      t2 = from_vec (spow_nat p (t + t))).
+      { intros t2 E. rewrite (Hm _ _ _ E). apply from_vec_peq.
+        apply (peq_sym C c0). apply (spow_nat_add C c0 c1 cadd cmul csub copp Crt). }
+      destruct (N.even pc) eqn:Ev.
+      + destruct (m (from_vec (spow_nat p t)) (from_vec (spow_nat p t))) as [t2| | |] eqn:E; cbn [bind] in H; try discriminate H.
+        rewrite (Hsq t2 eq_refl) in H.
+        destruct (IH p (t + t)%nat r (pc / 2) out) as [t' [r' [H1 [H2 H3]]]]; [| exact H |].
+        { apply N.even_spec in Ev. destruct Ev as [h Eh]. subst pc.
+          rewrite N.mul_comm, N.div_mul by lia. lia. }
+        exists t', r'. repeat split; try assumption.
+        apply N.even_spec in Ev. destruct Ev as [h Eh]. subst pc.
+        rewrite N.mul_comm, N.div_mul in H3 by lia. lia.
+      + destruct (m (from_vec (spow_nat p r)) (from_vec (spow_nat p t))) as [r2| | |] eqn:Er; cbn [bind] in H; try discriminate H.
+        destruct (m (from_vec (spow_nat p t)) (from_vec (spow_nat p t))) as [t2| | |] eqn:E; cbn [bind] in H; try discriminate H.
+        rewrite (Hsq t2 eq_refl) in H.
+        assert (Er2 : r2 = from_vec (spow_nat p (r + t))).
+        { rewrite (Hm _ _ _ Er). apply from_vec_peq.
+          apply (peq_sym C c0). apply (spow_nat_add C c0 c1 cadd cmul csub copp Crt). }
+        rewrite Er2 in H.
+        assert (Hodd : N.odd pc = true) by (rewrite <- N.negb_even, Ev; reflexivity).
+        apply N.odd_spec in Hodd. destruct Hodd as [h Eh].
+        assert (Hdiv : pc / 2 = h).
+        { subst pc. rewrite N.add_comm, N.mul_comm. rewrite N.div_add by lia. cbn. lia. }
+        destruct (IH p (t + t)%nat (r + t)%nat (pc / 2) out) as [t' [r' [H1 [H2 H3]]]]; [| exact H |].
+        { rewrite Hdiv. lia. }
+        exists t', r'. repeat split; try assumption. rewrite Hdiv in H3. nia.
+  Qed.
+
+  (* THEOREM (powers, partial correctness for any sound multiplier) *)
+  Theorem pow_sound : forall m, mul_sound m -> forall p n out,
+    pow C c1 m (from_vec p) n = Ok out -> out = from_vec (spow C c0 c1 cadd cmul p n).
+  Proof.
+    intros m Hm p n out H. unfold pow in H. unfold spow.
+    destruct (n =? 0) eqn:E0.
+    - inversion H; subst. assert (n = 0) by lia. subst n. cbn [N.to_nat PolySpec.spow_nat].
+      apply one_dict_from_vec.
+    - rewrite one_dict_from_vec in H.
+      rewrite (from_vec_peq p (spow_nat p 1)) in H by (apply (peq_sym C c0); apply spow_nat_1).
+      change [c1] with (spow_nat p 0) in H.
+      destruct (pow_loop C m (S (N.to_nat (N.size n))) (from_vec (spow_nat p 1)) (from_vec (spow_nat p 0)) n)
+        as [tr| | |] eqn:El; cbn [bind] in H; try discriminate H.
+      destruct (pow_loop_correct m Hm _ p 1%nat 0%nat n tr ltac:(lia) El) as [t' [r' [H1 [H2 H3]]]].
+      rewrite H1, H2 in H. rewrite (Hm _ _ _ H). apply from_vec_peq.
+      replace (N.to_nat n) with (r' + t')%nat by lia.
+      apply (peq_sym C c0). apply (spow_nat_add C c0 c1 cadd cmul csub copp Crt).
+  Qed.
+
+  (* the run with a weaker sound multiplier is reproduced by any multiplier that extends it
+     on well-formed dictionaries *)
+  Definition extends_on_wf (m1 m2 : dict -> dict -> res dict) : Prop :=
+    forall p q r, m2 (from_vec p) (from_vec q) = Ok r -> m1 (from_vec p) (from_vec q) = Ok r.
+
+  Lemma pow_loop_mono : forall (m1 m2 : dict -> dict -> res dict),
+    mul_sound m2 -> extends_on_wf m1 m2 ->
+    forall fuel pt pr pc out,
+      pow_loop C m2 fuel (from_vec pt) (from_vec pr) pc = Ok out ->
+      pow_loop C m1 fuel (from_vec pt) (from_vec pr) pc = Ok out
+      /\ exists pt' pr', out = (from_vec pt', from_vec pr').
+  Proof.
+    intros m1 m2 Hs Hext. induction fuel as [|f IH]; intros pt pr pc out H; cbn [pow_loop] in *.
+    - destruct (pc =? 1); [|discriminate H]. split. exact H. inversion H. eauto.
+    - destruct (pc =? 1). split. exact H. inversion H. eauto.
+      destruct (N.even pc).
+      + destruct (m2 (from_vec pt) (from_vec pt)) as [t2| | |] eqn:E; cbn [bind] in H; try discriminate H.
+        rewrite (Hext _ _ _ E). cbn [bind]. rewrite (Hs _ _ _ E) in *. apply IH. exact H.
+      + destruct (m2 (from_vec pr) (from_vec pt)) as [r2| | |] eqn:Er; cbn [bind] in H; try discriminate H.
+        destruct (m2 (from_vec pt) (from_vec pt)) as [t2| | |] eqn:E; cbn [bind] in H; try discriminate H.
+        rewrite (Hext _ _ _ Er), (Hext _ _ _ E). cbn [bind].
+        rewrite (Hs _ _ _ E), (Hs _ _ _ Er) in *. apply IH. exact H.
+  Qed.
+
+  Lemma pow_mono : forall (m1 m2 : dict -> dict -> res dict),
+    mul_sound m2 -> extends_on_wf m1 m2 ->
+    forall p n out, pow C c1 m2 (from_vec p) n = Ok out -> pow C c1 m1 (from_vec p) n = Ok out.
+  Proof.
+    intros m1 m2 Hs Hext p n out H. unfold pow in *. destruct (n =? 0). exact H.
+    rewrite one_dict_from_vec in *.
+    destruct (pow_loop C m2 (S (N.to_nat (N.size n))) (from_vec p) (from_vec [c1]) n) as [tr| | |] eqn:El;
+      cbn [bind] in H; try discriminate H.
+    destruct (pow_loop_mono m1 m2 Hs Hext _ _ _ _ _ El) as [El1 [pt' [pr' Etr]]].
+    rewrite El1. cbn [bind]. subst tr. cbn [fst snd] in *. apply Hext. exact H.
+  Qed.
+
+  (* termination: the loop `while (p != 1)` never exhausts its fuel (p >= 1) *)
+  Lemma pow_loop_fuel : forall m, (forall x y, m x y <> ErrFuel) ->
+    forall fuel tmp rs pc, 1 <= pc -> pc < 2 ^ N.of_nat fuel -> pow_loop C m fuel tmp rs pc <> ErrFuel.
+  Proof.
+    intros m Hm. induction fuel as [|f IH]; intros tmp rs pc H1 H2; cbn [pow_loop].
+    - cbn in H2. replace (pc =? 1) with true by lia. discriminate.
+    - destruct (pc =? 1) eqn:E1. discriminate.
+      assert (Hhalf : 1 <= pc / 2 /\ pc / 2 < 2 ^ N.of_nat f).
+      { rewrite Nat2N.inj_succ, N.pow_succ_r' in H2. split.
+        - apply N.div_le_lower_bound; lia.
+        - apply N.div_lt_upper_bound; lia. }
+      destruct (N.even pc).
+      + destruct (m tmp tmp) as [t2| | |] eqn:E; cbn [bind]; try discriminate.
+        apply IH; apply Hhalf. exfalso. eapply Hm; eauto.
+      + destruct (m rs tmp) as [r2| | |] eqn:Er; cbn [bind]; try discriminate.
+        destruct (m tmp tmp) as [t2| | |] eqn:E; cbn [bind]; try discriminate.
+        apply IH; apply Hhalf. exfalso. eapply Hm; eauto. exfalso. eapply Hm; eauto.
+  Qed.
+
+  Theorem pow_terminates : forall m, (forall x y, m x y <> ErrFuel) ->
+    forall a n, pow C c1 m a n <> ErrFuel.
+  Proof.
+    intros m Hm a n. unfold pow. destruct (n =? 0) eqn:E0. discriminate.
+    destruct (pow_loop C m (S (N.to_nat (N.size n))) a (one_dict C c1) n) as [tr| | |] eqn:El;
+      cbn [bind]; try discriminate.
+    - apply Hm.
+    - exfalso. revert El. apply pow_loop_fuel. exact Hm. lia.
+      rewrite Nat2N.inj_succ, N2Nat.id, N.pow_succ_r'. pose proof (N.size_gt n). lia.
+  Qed.
+
+  (* ---------------------------------------------------------------- divides_upoly *)
+  Variable cdivx : C -> C -> option C.
+  Hypothesis cdivx_spec : forall x y q, y <> c0 -> (cdivx x y = Some q <-> x = q ⊗ y).
+
+  Local Notation mono := (mono C c0).
+  Local Notation sc p k := (scoeff C c0 p k).
+
+  Lemma usub_small : forall x y, y <= x -> x < W32 -> usub x y = x - y.
+  Proof.
+    intros x y H1 H2. unfold usub. rewrite (N.mod_small y) by lia.
+    replace (x + W32 - y) with ((x - y) + 1 * W32) by lia.
+    rewrite N.mod_add by (unfold W32; lia). apply N.mod_small. lia.
+  Qed.
+
+  Lemma from_vec_mono : forall k q, q <> c0 -> from_vec (mono k q) = [(N.of_nat k, q)].
+  Proof.
+    intros k q Hq. symmetry. apply from_vec_ext.
+    - split. cbn. split; [constructor | exact I]. constructor. exact Hq. constructor.
+    - intro j. cbn [get_coeff]. unfold scoeff. rewrite (nth_mono C c0).
+      destruct (N.of_nat k =? j) eqn:E.
+      + replace (Nat.eqb (N.to_nat j) k) with true by (symmetry; apply Nat.eqb_eq; lia). reflexivity.
+      + replace (Nat.eqb (N.to_nat j) k) with false by (symmetry; apply Nat.eqb_neq; lia). reflexivity.
+  Qed.
+
+  Lemma set_term_prepend : forall (rq : dict) k q, above k rq -> set_term rq k q = (k, q) :: rq.
+  Proof.
+    intros [|[k' v'] rq] k q A; cbn [set_term]. reflexivity.
+    inversion A; subst. cbn [fst] in *.
+    replace (k' <? k) with false by lia. replace (k' =? k) with false by lia. reflexivity.
+  Qed.
+
+  Lemma degree_top_nonzero : forall p, from_vec p <> [] -> sc p (degree (from_vec p)) <> c0.
+  Proof.
+    intros p Hne. destruct (degree_from_vec p) as [_ [H|[_ H]]]. exact H.
+    exfalso. apply Hne. apply from_vec_zero. intro k. specialize (H (N.of_nat k)).
+    unfold scoeff in H. rewrite Nat2N.id in H. exact H.
+  Qed.
+
+  Lemma degree_above_zero : forall p k, degree (from_vec p) < k -> sc p k = c0.
+  Proof. intros p k H. rewrite <- coeff_from_vec. apply coeff_gt_degree. apply from_vec_wf. exact H. Qed.
+
+  Lemma nonzero_le_degree : forall p k, sc p k <> c0 -> from_vec p <> [] /\ k <= degree (from_vec p).
+  Proof.
+    intros p k H. split.
+    - intro E. apply H. rewrite <- coeff_from_vec, E. reflexivity.
+    - destruct (N.le_gt_cases k (degree (from_vec p))) as [L|L]. exact L.
+      exfalso. apply H. apply degree_above_zero. exact L.
+  Qed.
+
+  Lemma degree_lt_of_vanish : forall p n, from_vec p <> [] -> (forall j, n <= j -> sc p j = c0) ->
+    degree (from_vec p) < n.
+  Proof.
+    intros p n Hne Hv. destruct (N.lt_ge_cases (degree (from_vec p)) n) as [L|L]. exact L.
+    exfalso. apply (degree_top_nonzero p Hne). apply Hv. exact L.
+  Qed.
+
+  (* the leading term of a product in an integral domain *)
+  Lemma smul_lead : forall p r, from_vec p <> [] -> from_vec r <> [] ->
+    sc (smul p r) (degree (from_vec p) + degree (from_vec r))
+      = sc p (degree (from_vec p)) ⊗ sc r (degree (from_vec r))
+    /\ sc (smul p r) (degree (from_vec p) + degree (from_vec r)) <> c0.
+  Proof.
+    intros p r Hp Hr.
+    assert (E : sc (smul p r) (degree (from_vec p) + degree (from_vec r))
+                = sc p (degree (from_vec p)) ⊗ sc r (degree (from_vec r))).
+    { unfold scoeff. rewrite N2Nat.inj_add.
+      apply (smul_top C c0 c1 cadd cmul csub copp Crt).
+      - intros k Hk. pose proof (degree_above_zero p (N.of_nat k)) as H. unfold scoeff in H.
+        rewrite Nat2N.id in H. apply H. lia.
+      - intros k Hk. pose proof (degree_above_zero r (N.of_nat k)) as H. unfold scoeff in H.
+        rewrite Nat2N.id in H. apply H. lia. }
+    split. exact E. rewrite E. intro Z.
+    destruct (Cintegral _ _ Z) as [Z1|Z1]; [apply (degree_top_nonzero p Hp) | apply (degree_top_nonzero r Hr)]; exact Z1.
+  Qed.
+
+  Definition multiple (pa pc : list C) : Prop := exists R, peq pc (smul pa R).
+
+  Lemma peq_sc : forall p q, peq p q -> forall k, sc p k = sc q k.
+  Proof. intros p q H k. unfold scoeff. apply H. Qed.
+
+  (* a non-zero multiple of pa has at least the degree of pa, and its leading coefficient is a
+     multiple of pa's *)
+  Lemma multiple_lead : forall pa pc R, from_vec pa <> [] -> from_vec pc <> [] -> peq pc (smul pa R) ->
+    from_vec R <> [] /\
+    degree (from_vec pc) = degree (from_vec pa) + degree (from_vec R) /\
+    sc pc (degree (from_vec pc)) = sc R (degree (from_vec R)) ⊗ sc pa (degree (from_vec pa)).
+  Proof.
+    intros pa pc R Ha Hc HR.
+    assert (HRne : from_vec R <> []).
+    { intro E. apply Hc. apply from_vec_zero. intro k. rewrite (HR k).
+      apply smul_zero_r. apply from_vec_nil_zero. exact E. }
+    destruct (smul_lead pa R Ha HRne) as [E1 E2].
+    assert (Hdeg : degree (from_vec pc) = degree (from_vec pa) + degree (from_vec R)).
+    { apply N.le_antisymm.
+      - destruct (N.le_gt_cases (degree (from_vec pc)) (degree (from_vec pa) + degree (from_vec R))) as [L|L].
+        exact L. exfalso. apply (degree_top_nonzero pc Hc). rewrite (peq_sc _ _ HR). unfold scoeff.
+        apply (smul_support C c0 c1 cadd cmul csub copp Crt pa R
+                 (S (N.to_nat (degree (from_vec pa)))) (S (N.to_nat (degree (from_vec R))))).
+        + intros k Hk. pose proof (degree_above_zero pa (N.of_nat k)) as H. unfold scoeff in H.
+          rewrite Nat2N.id in H. apply H. lia.
+        + intros k Hk. pose proof (degree_above_zero R (N.of_nat k)) as H. unfold scoeff in H.
+          rewrite Nat2N.id in H. apply H. lia.
+        + lia.
+      - apply (nonzero_le_degree pc). rewrite (peq_sc _ _ HR). exact E2. }
+    split. exact HRne. split. exact Hdeg.
+    rewrite Hdeg, (peq_sc _ _ HR), E1. ring.
+  Qed.
+
+  Lemma smul_cancel : forall pa R, from_vec pa <> [] -> (forall k, cf (smul pa R) k = c0) -> from_vec R = [].
+  Proof.
+    intros pa R Ha H. destruct (from_vec R) eqn:E. reflexivity.
+    exfalso. assert (HRne : from_vec R <> []) by (rewrite E; discriminate).
+    destruct (smul_lead pa R Ha HRne) as [_ E2]. apply E2. unfold scoeff. apply H.
+  Qed.
+
+  Section Divides.
+    Variable m : dict -> dict -> res dict.
+    Hypothesis m_sound : mul_sound m.
+    Variable pa : list C.
+    Hypothesis pa_ne : from_vec pa <> [].
+    Local Notation a := (from_vec pa).
+    Local Notation da := (degree (from_vec pa)).
+    Local Notation div_loop := (div_loop C c0 csub copp ceqb cdivx m).
+
+    Lemma lc_a_nonzero : get_lc C c0 a <> c0.
+    Proof. rewrite get_lc_from_vec. apply degree_top_nonzero. exact pa_ne. Qed.
+
+    (* one step of the loop, on coefficient lists *)
+    Lemma div_step : forall pc q,
+      from_vec pc <> [] -> da <= degree (from_vec pc) -> degree (from_vec pc) < W32 ->
+      cdivx (get_lc C c0 (from_vec pc)) (get_lc C c0 a) = Some q ->
+      let k := usub (degree (from_vec pc)) da in
+      let pc1 := ssub pc (smul pa (mono (N.to_nat k) q)) in
+      k = degree (from_vec pc) - da /\ q <> c0 /\
+      clean [(k, q)] = from_vec (mono (N.to_nat k) q) /\
+      (from_vec pc1 = [] \/ degree (from_vec pc1) < degree (from_vec pc)).
+    Proof.
+      intros pc q Hc Hd Hw Hq k pc1.
+      assert (Ek : k = degree (from_vec pc) - da) by (apply usub_small; assumption).
+      apply cdivx_spec in Hq; [|apply lc_a_nonzero].
+      rewrite !get_lc_from_vec in Hq.
+      assert (Hqn : q <> c0).
+      { intro Z. apply (degree_top_nonzero pc Hc). rewrite Hq, Z. ring. }
+      split. exact Ek. split. exact Hqn. split.
+      { rewrite from_vec_mono by exact Hqn. rewrite N2Nat.id.
+        unfold PolyModel.clean. cbn [filter snd].
+        replace (cnz q) with true by (symmetry; apply cnz_true; exact Hqn). reflexivity. }
+      destruct (from_vec pc1) eqn:E1. left; reflexivity. right. rewrite <- E1.
+      apply degree_lt_of_vanish. rewrite E1; discriminate.
+      intros j Hj. unfold pc1, scoeff, PolySpec.ssub.
+      rewrite (nth_sadd C c0 c1 cadd cmul csub copp Crt), (nth_sneg C c0 c1 cadd cmul csub copp Crt).
+      destruct (N.eq_dec j (degree (from_vec pc))) as [Ej|Ej].
+      - subst j. replace (N.to_nat (degree (from_vec pc))) with (N.to_nat da + N.to_nat k)%nat by lia.
+        rewrite (smul_top C c0 c1 cadd cmul csub copp Crt).
+        + rewrite (nth_mono C c0), Nat.eqb_refl.
+          replace (N.to_nat da + N.to_nat k)%nat with (N.to_nat (degree (from_vec pc))) by lia.
+          fold (scoeff C c0 pc (degree (from_vec pc))). fold (scoeff C c0 pa da). rewrite Hq. ring.
+        + intros i Hi. pose proof (degree_above_zero pa (N.of_nat i)) as H. unfold scoeff in H.
+          rewrite Nat2N.id in H. apply H. lia.
+        + intros i Hi. rewrite (nth_mono C c0).
+          replace (Nat.eqb i (N.to_nat k)) with false by (symmetry; apply Nat.eqb_neq; lia). reflexivity.
+      - assert (Hz : cf pc (N.to_nat j) = c0).
+        { apply (degree_above_zero pc j). lia. }
+        rewrite Hz.
+        rewrite (smul_support C c0 c1 cadd cmul csub copp Crt pa (mono (N.to_nat k) q)
+                   (S (N.to_nat da)) (S (N.to_nat k))).
+        + ring.
+        + intros i Hi. pose proof (degree_above_zero pa (N.of_nat i)) as H. unfold scoeff in H.
+          rewrite Nat2N.id in H. apply H. lia.
+        + intros i Hi. rewrite (nth_mono C c0).
+          replace (Nat.eqb i (N.to_nat k)) with false by (symmetry; apply Nat.eqb_neq; lia). reflexivity.
+        + lia.
+    Qed.
+
+    Lemma multiple_step : forall pc M, multiple pa (ssub pc (smul pa M)) <-> multiple pa pc.
+    Proof.
+      intros pc M. split; intros [R HR].
+      - exists (sadd R M). intro j. specialize (HR j). unfold PolySpec.ssub in HR.
+        rewrite (nth_sadd C c0 c1 cadd cmul csub copp Crt), (nth_sneg C c0 c1 cadd cmul csub copp Crt) in HR.
+        rewrite (nth_smul_sadd_r C c0 c1 cadd cmul csub copp Crt). rewrite <- HR. ring.
+      - exists (sadd R (sneg M)). intro j. specialize (HR j). unfold PolySpec.ssub.
+        rewrite (nth_sadd C c0 c1 cadd cmul csub copp Crt), (nth_sneg C c0 c1 cadd cmul csub copp Crt).
+        rewrite (nth_smul_sadd_r C c0 c1 cadd cmul csub copp Crt), (nth_smul_sneg_r C c0 c1 cadd cmul csub copp Crt).
+        rewrite HR. ring.
+    Qed.
+
+    Lemma div_continue_true : forall b : dict, div_continue C a b = true <-> b <> [] /\ da <= degree b.
+    Proof.
+      intros b. unfold div_continue. destruct b as [|kv b]; cbn [is_empty negb andb].
+      - split. discriminate. intros [H _]. congruence.
+      - rewrite N.leb_le. split. intro H. split. discriminate. exact H. intros [_ H]. exact H.
+    Qed.
+
+    Lemma div_loop_spec : forall fuel pc (rq : dict) out,
+      degree (from_vec pc) < W32 -> wf rq ->
+      (from_vec pc <> [] -> Forall (fun kv => degree (from_vec pc) < fst kv + da) rq) ->
+      div_loop fuel a (from_vec pc) rq = Ok out ->
+      match out with
+      | None => ~ multiple pa pc
+      | Some (b', rq') =>
+          exists D pr, wf rq' /\ (forall j, coeff rq' j = coeff rq j ⊕ sc D j) /\
+                       b' = from_vec pr /\ peq pc (sadd (smul pa D) pr) /\
+                       (b' = [] \/ degree b' < da)
+      end.
+    Proof.
+      induction fuel as [|f IH]; intros pc rq out Hw Wrq Hab H; cbn [PolyModel.div_loop] in H;
+        destruct (div_continue C a (from_vec pc)) eqn:Ec; cbn [negb] in H.
+      - discriminate H.
+      - inversion H; subst. exists [], pc. split. exact Wrq. split.
+        { intro j. unfold scoeff. rewrite (nth_nil C c0). ring. }
+        split. reflexivity. split.
+        { intro j. rewrite (nth_sadd C c0 c1 cadd cmul csub copp Crt), (nth_smul_nil_r C c0 c1 cadd cmul csub copp Crt). ring. }
+        destruct (from_vec pc) as [|kv b] eqn:E. left; reflexivity. right.
+        rewrite <- E in *.
+        destruct (N.lt_ge_cases (degree (from_vec pc)) da) as [L|L]. exact L.
+        exfalso. assert (div_continue C a (from_vec pc) = true).
+        { apply div_continue_true. split. rewrite E. discriminate. exact L. } congruence.
+      - apply div_continue_true in Ec. destruct Ec as [Hne Hd].
+        destruct (cdivx (get_lc C c0 (from_vec pc)) (get_lc C c0 a)) as [q|] eqn:Eq.
+        + destruct (div_step pc q Hne Hd Hw Eq) as [Ek [Hqn [Ecl Hdec]]].
+          set (k := usub (degree (from_vec pc)) da) in *.
+          set (M := mono (N.to_nat k) q) in *.
+          rewrite Ecl in H.
+          destruct (m a (from_vec M)) as [prod| | |] eqn:Em; cbn [bind] in H; try discriminate H.
+          rewrite (m_sound _ _ _ Em) in H.
+          rewrite dict_sub_correct in H.
+          assert (Hab' : Forall (fun kv => degree (from_vec pc) < fst kv + da) rq) by (apply Hab; exact Hne).
+          assert (Habove : above k rq).
+          { eapply Forall_impl; [|exact Hab']. cbn. intros kv Hkv. lia. }
+          rewrite set_term_prepend in H by exact Habove.
+          set (pc1 := ssub pc (smul pa M)) in *.
+          assert (Wrq1 : wf ((k, q) :: rq)).
+          { destruct Wrq as [Sq Nq]. split. cbn [sorted]. split; assumption. constructor; assumption. }
+          assert (Hw1 : degree (from_vec pc1) < W32).
+          { destruct Hdec as [E|L]. rewrite E. cbn. unfold W32. lia. lia. }
+          assert (Hab1 : from_vec pc1 <> [] ->
+                         Forall (fun kv => degree (from_vec pc1) < fst kv + da) ((k, q) :: rq)).
+          { intro Hne1. destruct Hdec as [E|L]. congruence.
+            constructor. cbn [fst]. lia. eapply Forall_impl; [|exact Hab']. cbn. intros kv Hkv. lia. }
+          specialize (IH pc1 ((k, q) :: rq) out Hw1 Wrq1 Hab1 H).
+          destruct out as [[b' rq']|].
+          * destruct IH as [D1 [pr [W' [Hco [Eb [Hpq Hfin]]]]]].
+            exists (sadd D1 M), pr. split. exact W'. split.
+            { intro j. rewrite Hco. cbn [get_coeff]. unfold scoeff.
+              rewrite (nth_sadd C c0 c1 cadd cmul csub copp Crt). unfold M. rewrite (nth_mono C c0).
+              destruct (k =? j) eqn:Ekj.
+              - assert (k = j) by lia. subst j. rewrite Nat.eqb_refl.
+                rewrite (coeff_above rq k k Habove) by lia. ring.
+              - replace (Nat.eqb (N.to_nat j) (N.to_nat k)) with false by (symmetry; apply Nat.eqb_neq; lia).
+                ring. }
+            split. exact Eb. split; [|exact Hfin].
+            intro j. specialize (Hpq j). unfold pc1, PolySpec.ssub in Hpq.
+            rewrite !(nth_sadd C c0 c1 cadd cmul csub copp Crt) in *.
+            rewrite (nth_sneg C c0 c1 cadd cmul csub copp Crt) in Hpq.
+            rewrite (nth_smul_sadd_r C c0 c1 cadd cmul csub copp Crt).
+            transitivity ((cf pc j ⊕ copp (cf (smul pa M) j)) ⊕ cf (smul pa M) j). ring.
+            rewrite Hpq. ring.
+          * intro Hm. apply IH. apply multiple_step. exact Hm.
+        + inversion H; subst. intros [R HR].
+          destruct (multiple_lead pa pc R pa_ne Hne HR) as [_ [_ Hlc]].
+          assert (cdivx (get_lc C c0 (from_vec pc)) (get_lc C c0 a) = Some (sc R (degree (from_vec R)))).
+          { apply cdivx_spec. apply lc_a_nonzero. rewrite !get_lc_from_vec. exact Hlc. }
+          congruence.
+      - (* same exit as with no fuel *)
+        inversion H; subst. exists [], pc. split. exact Wrq. split.
+        { intro j. unfold scoeff. rewrite (nth_nil C c0). ring. }
+        split. reflexivity. split.
+        { intro j. rewrite (nth_sadd C c0 c1 cadd cmul csub copp Crt), (nth_smul_nil_r C c0 c1 cadd cmul csub copp Crt). ring. }
+        destruct (from_vec pc) as [|kv b] eqn:E. left; reflexivity. right.
+        rewrite <- E in *.
+        destruct (N.lt_ge_cases (degree (from_vec pc)) da) as [L|L]. exact L.
+        exfalso. assert (div_continue C a (from_vec pc) = true).
+        { apply div_continue_true. split. rewrite E. discriminate. exact L. } congruence.
+    Qed.
+
+    Lemma div_loop_fuel : (forall x y, m x y <> ErrFuel) ->
+      forall fuel pc (rq : dict), degree (from_vec pc) < W32 ->
+      (from_vec pc <> [] -> (N.to_nat (degree (from_vec pc)) < fuel)%nat) ->
+      div_loop fuel a (from_vec pc) rq <> ErrFuel.
+    Proof.
+      intros Hm. induction fuel as [|f IH]; intros pc rq Hw Hf; cbn [PolyModel.div_loop];
+        destruct (div_continue C a (from_vec pc)) eqn:Ec; cbn [negb]; try discriminate.
+      - apply div_continue_true in Ec. destruct Ec as [Hne _]. specialize (Hf Hne). lia.
+      - apply div_continue_true in Ec. destruct Ec as [Hne Hd].
+        destruct (cdivx (get_lc C c0 (from_vec pc)) (get_lc C c0 a)) as [q|] eqn:Eq; [|discriminate].
+        destruct (div_step pc q Hne Hd Hw Eq) as [Ek [Hqn [Ecl Hdec]]].
+        rewrite Ecl.
+        destruct (m a (from_vec (mono (N.to_nat (usub (degree (from_vec pc)) da)) q))) as [prod| | |] eqn:Em;
+          cbn [bind]; try discriminate.
+        + rewrite (m_sound _ _ _ Em). rewrite dict_sub_correct. apply IH.
+          * destruct Hdec as [E|L]. rewrite E. cbn. unfold W32. lia. lia.
+          * intro Hne1. destruct Hdec as [E|L]. congruence. specialize (Hf Hne). lia.
+        + exfalso. eapply Hm; eauto.
+    Qed.
+
+    (* THEOREM (exact division): whenever the run answers, the answer is right *)
+    Theorem divides_sound_complete : forall pb r,
+      degree (from_vec pb) < W32 ->
+      divides C c0 csub copp ceqb cdivx m a (from_vec pb) = Ok r ->
+      match r with
+      | Some d => exists D, d = from_vec D /\ peq pb (smul pa D)
+      | None => ~ multiple pa pb
+      end.
+    Proof.
+      intros pb r Hw H. unfold divides in H.
+      replace (is_empty a) with false in H by (destruct a; [exfalso; apply pa_ne; reflexivity | reflexivity]).
+      destruct (div_loop (S (S (N.to_nat (degree (from_vec pb))))) a (from_vec pb) []) as [o| | |] eqn:El;
+        cbn [bind] in H; try discriminate H.
+      pose proof (div_loop_spec _ pb [] o Hw (conj I (Forall_nil _)) (fun _ => Forall_nil _) El) as Hs.
+      destruct o as [[b' rq']|].
+      - destruct Hs as [D [pr [W' [Hco [Eb [Hpq Hfin]]]]]].
+        assert (Erq : rq' = from_vec D).
+        { apply from_vec_ext. exact W'. intro j. rewrite Hco. cbn [get_coeff]. ring. }
+        destruct (is_empty b') eqn:Eemp.
+        + inversion H; subst r. exists D. split.
+          * rewrite Erq. apply clean_wf_id. apply from_vec_wf.
+          * destruct b'; [|discriminate Eemp]. symmetry in Eb.
+            intro j. rewrite (Hpq j), (nth_sadd C c0 c1 cadd cmul csub copp Crt).
+            rewrite (from_vec_nil_zero pr Eb j). ring.
+        + inversion H; subst r. intros [R HR].
+          assert (Hbne : from_vec pr <> []) by (rewrite <- Eb; destruct b'; [discriminate Eemp | discriminate]).
+          assert (Hmul : peq pr (smul pa (sadd R (sneg D)))).
+          { intro j. specialize (Hpq j). specialize (HR j).
+            rewrite (nth_sadd C c0 c1 cadd cmul csub copp Crt) in Hpq.
+            rewrite (nth_smul_sadd_r C c0 c1 cadd cmul csub copp Crt), (nth_smul_sneg_r C c0 c1 cadd cmul csub copp Crt).
+            rewrite <- HR, Hpq. ring. }
+          destruct (multiple_lead pa pr _ pa_ne Hbne Hmul) as [_ [Hdeg _]].
+          destruct Hfin as [E|L]. subst b'. congruence. rewrite Eb in L. lia.
+      - inversion H; subst r. exact Hs.
+    Qed.
+
+    Theorem divides_complete : forall pb Q r,
+      degree (from_vec pb) < W32 -> peq pb (smul pa Q) ->
+      divides C c0 csub copp ceqb cdivx m a (from_vec pb) = Ok r -> r = Some (from_vec Q).
+    Proof.
+      intros pb Q r Hw HQ H. pose proof (divides_sound_complete pb r Hw H) as Hs.
+      destruct r as [d|].
+      - destruct Hs as [D [Ed HD]]. subst d. f_equal. apply from_vec_peq.
+        assert (Hz : from_vec (sadd D (sneg Q)) = []).
+        { apply (smul_cancel pa). exact pa_ne. intro k.
+          rewrite (nth_smul_sadd_r C c0 c1 cadd cmul csub copp Crt), (nth_smul_sneg_r C c0 c1 cadd cmul csub copp Crt).
+          rewrite <- (HD k), <- (HQ k). ring. }
+        intro k. pose proof (from_vec_nil_zero _ Hz k) as Hk.
+        rewrite (nth_sadd C c0 c1 cadd cmul csub copp Crt), (nth_sneg C c0 c1 cadd cmul csub copp Crt) in Hk.
+        transitivity ((cf D k ⊕ copp (cf Q k)) ⊕ cf Q k). ring. rewrite Hk. ring.
+      - exfalso. apply Hs. exists Q. exact HQ.
+    Qed.
+
+    Theorem divides_terminates : (forall x y, m x y <> ErrFuel) -> forall pb,
+      degree (from_vec pb) < W32 ->
+      divides C c0 csub copp ceqb cdivx m a (from_vec pb) <> ErrFuel.
+    Proof.
+      intros Hm pb Hw. unfold divides. destruct (is_empty a). discriminate.
+      destruct (div_loop (S (S (N.to_nat (degree (from_vec pb))))) a (from_vec pb) []) as [o| | |] eqn:El;
+        cbn [bind]; try discriminate.
+      - destruct o as [[b' rq']|]. destruct (is_empty b'); discriminate. discriminate.
+      - exfalso. revert El. apply div_loop_fuel. exact Hm. exact Hw. intros _. lia.
+    Qed.
+  End Divides.
+
+  Lemma clean_single : forall k q, exists l, clean [(k, q)] = from_vec l.
+  Proof.
+    intros k q. unfold PolyModel.clean. cbn [filter snd]. destruct (cnz q) eqn:E.
+    - exists (mono (N.to_nat k) q). rewrite from_vec_mono by (apply cnz_true; exact E).
+      rewrite N2Nat.id. reflexivity.
+    - exists []. reflexivity.
+  Qed.
+
+  Lemma div_loop_mono : forall (m1 m2 : dict -> dict -> res dict),
+    mul_sound m2 -> extends_on_wf m1 m2 ->
+    forall fuel pa pb rq out,
+      div_loop C c0 csub copp ceqb cdivx m2 fuel (from_vec pa) (from_vec pb) rq = Ok out ->
+      div_loop C c0 csub copp ceqb cdivx m1 fuel (from_vec pa) (from_vec pb) rq = Ok out.
+  Proof.
+    intros m1 m2 Hs Hext. induction fuel as [|f IH]; intros pa pb rq out H; cbn [PolyModel.div_loop] in *.
+    - exact H.
+    - destruct (negb (div_continue C (from_vec pa) (from_vec pb))). exact H.
+      destruct (cdivx (get_lc C c0 (from_vec pb)) (get_lc C c0 (from_vec pa))) as [q|]; [|exact H].
+      destruct (clean_single (usub (degree (from_vec pb)) (degree (from_vec pa))) q) as [l El].
+      rewrite El in *.
+      destruct (m2 (from_vec pa) (from_vec l)) as [prod| | |] eqn:E; cbn [bind] in H; try discriminate H.
+      rewrite (Hext _ _ _ E). cbn [bind]. rewrite (Hs _ _ _ E) in *.
+      rewrite dict_sub_correct in *. apply IH. exact H.
+  Qed.
+
+  Lemma divides_mono : forall (m1 m2 : dict -> dict -> res dict),
+    mul_sound m2 -> extends_on_wf m1 m2 ->
+    forall pa pb out, divides C c0 csub copp ceqb cdivx m2 (from_vec pa) (from_vec pb) = Ok out ->
+                      divides C c0 csub copp ceqb cdivx m1 (from_vec pa) (from_vec pb) = Ok out.
+  Proof.
+    intros m1 m2 Hs Hext pa pb out H. unfold divides in *. destruct (is_empty (from_vec pa)). exact H.
+    destruct (PolyModel.div_loop C c0 csub copp ceqb cdivx m2 (S (S (N.to_nat (degree (from_vec pb)))))
+                (from_vec pa) (from_vec pb) []) as [o| | |] eqn:El;
+      cbn [bind] in H; try discriminate H.
+    rewrite (div_loop_mono m1 m2 Hs Hext _ _ _ _ _ El). cbn [bind]. exact H.
+  Qed.
 End DictProofs.
